@@ -542,11 +542,12 @@ def judge_plan(ck, hbin, planner, pb, seed, budget, line, out, rc, err, tag, rec
         if (sol["libcheck"] == "1") != (not hard):
             ck.count("libcheck-vs-oracle-differs")
             ck.disagreements += 1
-        if (sol["libcheck"] == "1") != (not hard) and ck.dist["libcheck-vs-oracle-differs"] <= 3:
+            if ck.dist["libcheck-vs-oracle-differs"] <= 3:
                 ck.report({"engine": "control", "planner": planner, "what": "PathControl::check() and the replay oracle disagree"},
                           script=["control", line], expected="libcheck=%s" % ("0" if hard else "1"), observed=[out[0][:4000]],
                           found_input=False, engine="control",
-                          obligation="correspondence control: PathControl::check() = %s but the independent replay found %s" % (sol["libcheck"], [f["clause"] for f in hard] or "no failure"))
+                          obligation="correspondence control: PathControl::check() = %s but the independent replay found %s"
+                                     % (sol["libcheck"], [f["clause"] for f in hard] or "no failure"))
         records.append((planner, pb, sol, fails, line))
     return sol
 
@@ -814,4 +815,6 @@ MANIFEST = {
             "propagators and planners other than control RRT beyond the explored runs are not verified.",
     "technique": "Lean 4 proof (tree invariant by induction over the script) + lock-step differential correspondence + trace conformance "
                  "with an independent replay oracle",
+    "engine_kind": "Lean models + theorems (propagation core, control RRT), C++ harness linking libompl, line-protocol lock-step, "
+                   "Python replay oracle over all eight control planners",
 }
